@@ -198,6 +198,8 @@ def nontrivial(sc, ctx) -> bool:
 # ------------------------------------------------------------------ comparison of one output file
 def compare_output(path, exp, ns_out, mk, ctx):
     """`mk(clause, detail)` builds the Violation.  Returns crc of the data section."""
+    if not os.path.isfile(path):
+        raise mk("reported-output-does-not-exist", f"{ctx.rel(path)} was reported as written; there is no such file")
     try:
         fields, hdrlen, data = filgen.read_sigproc(path)
     except filgen.HeaderError as e:
